@@ -503,6 +503,9 @@ ObsView(v, pfx) ==
   LET s == VSize(v) IN
   <<E(pfx, "vok", B(VOk(v))), E(pfx, "vcomplete", B(VComplete(v))), E(pfx, "sizeknown", B(s.k))>> \o
   (IF s.k THEN <<E(pfx, "size", s.v)>> ELSE <<>>) \o
+  \* the $min_size / $max_size constants: the documented bounds ($lower_bound / $upper_bound) of the size
+  (LET r == Rng(v.t, SizeExpr(v.t)) IN
+     <<E(pfx, "minsize", IF r.ok THEN r.lo ELSE Wild), E(pfx, "maxsize", IF r.ok THEN r.hi ELSE Wild)>>) \o
   ObsFields(v, pfx, 1)
 
 
@@ -512,7 +515,7 @@ Obs(t, ps, buf) == ObsView(TopView(t, ps, buf), "")
    not change: a presence that is true/false, a value, a size, a count, and the positive verdicts. *)
 IsClaim(e) ==
   CASE e.t = "has" -> e.v # -1
-    [] e.t \in {"val", "size", "count", "elem"} -> TRUE
+    [] e.t \in {"val", "size", "count", "elem", "minsize", "maxsize"} -> TRUE
     [] e.t \in {"ok", "complete", "vok", "vcomplete", "sizeknown"} -> e.v = 1
 
 (* PrefixMonotone: everything claimed from o1 (a prefix) is still claimed, with the same value, in o2 *)
